@@ -1,9 +1,9 @@
 package main
 
 import (
-	"strings"
 	"encoding/json"
 	"fmt"
+	"strings"
 
 	"verifharness/internal/gen"
 	"verifharness/internal/real"
